@@ -1,13 +1,15 @@
 (* Dispatch from a property number to its correspondence check (one entry point for extraction). *)
 From GoSST Require Import Base.Bytes Base.Sx.
-From GoSST Require Corr.C16 Corr.C14 Corr.C04 Corr.C12 Corr.C20 Corr.SST Corr.DB Corr.Crash.
+From GoSST Require Corr.C16 Corr.C14 Corr.C04 Corr.C12 Corr.C20 Corr.SST Corr.DB Corr.Crash Corr.Buf.
 
 Definition check_by_id (id : N) (s : sx) : bool :=
   match id with
   | 1%N | 6%N | 17%N => DB.DBC.check_sx s
   | 3%N => SST.SSTC.check_sx 3 s
   | 7%N => DB.C07.check_sx s
-  | 2%N | 10%N | 13%N => Crash.CRC.check_sx s
+  | 2%N | 10%N => Crash.CRC.check_sx s
+  (* C13: crash sessions, and programs on the buffered writer in front of the log *)
+  | 13%N => if Buf.BUF.is_buf s then Buf.BUF.check_sx s else Crash.CRC.check_sx s
   | 19%N => DB.C19.check_sx s
   | 8%N => SST.SSTC.check_sx 8 s
   | 9%N => SST.C09.check_sx s
